@@ -1373,3 +1373,14 @@ package vm
 //@   ensures [unstake]    instructionSet[UNSTAKE] != nil && (@needswrite(instructionSet[UNSTAKE].execute) ==> instructionSet[UNSTAKE].writes)
 //@   ensures [unstakeall] instructionSet[UNSTAKEALL] != nil && (@needswrite(instructionSet[UNSTAKEALL].execute) ==> instructionSet[UNSTAKEALL].writes)
 //@   ensures [readers]    instructionSet[GETSTAKE] != nil && instructionSet[STAKENUM] != nil && instructionSet[PRINTF] != nil && instructionSet[AUTH] != nil && instructionSet[AUTHCALL] != nil
+
+// The base table: the standard state-writing entries are flagged.
+//@ func newInstructionSet
+//@   property C12
+//@   ensures [sstore]   result[SSTORE] != nil && (@needswrite(result[SSTORE].execute) ==> result[SSTORE].writes)
+//@   ensures [log0]     result[LOG0] != nil && (@needswrite(result[LOG0].execute) ==> result[LOG0].writes)
+//@   ensures [log4]     result[LOG4] != nil && (@needswrite(result[LOG4].execute) ==> result[LOG4].writes)
+//@   ensures [create]   result[CREATE] != nil && (@needswrite(result[CREATE].execute) ==> result[CREATE].writes)
+//@   ensures [create2]  result[CREATE2] != nil && (@needswrite(result[CREATE2].execute) ==> result[CREATE2].writes)
+//@   ensures [suicide]  result[SELFDESTRUCT] != nil && (@needswrite(result[SELFDESTRUCT].execute) ==> result[SELFDESTRUCT].writes)
+//@   ensures [call]     result[CALL] != nil && result[CALL].minStack >= 3
